@@ -180,5 +180,16 @@ def crash_history(seed, idx, quick):
     """histories with small and large transactions, bucket deletes, page reuse, file growth"""
     prof = {"families": ["deep", "tiny", "short"], "txs": 4 if quick else 8, "ops": 40, "p_drop": 0.1, "p_reopen": 0.0, "p_dbcheck": 0.0,
             "p_bucket_ops": 0.2, "file": False, "numpages": 16, "big_values": idx % 3 == 0}
+    # every other history runs under strict mode (the commit then runs its own check between the data pages and
+    # the header); a write transaction that changes nothing is committed as well (it still moves the free list)
+    prof["strict"] = idx % 2
     g = jgen.HistGen(seed * 9176 + idx, prof)
-    return g.history("crash%d" % idx)
+    h = g.history("crash%d" % idx)
+    out = []
+    n = 0
+    for l in h:
+        if l == "close":
+            t = 90000 + idx
+            out += ["begin %d w" % t, "commit %d" % t, "begin %d r" % (t + 1000), "dump %d" % (t + 1000), "drop %d" % (t + 1000)]
+        out.append(l)
+    return out
